@@ -680,6 +680,15 @@ def encode_for_hdf5(value: Any) -> Any:
     return value
 
 
+def _decode_strings(value: Any) -> Any:
+    """Decode (nested lists of) byte strings as UTF-8."""
+    if isinstance(value, list):
+        return [_decode_strings(v) for v in value]
+    if isinstance(value, bytes):
+        return value.decode("utf-8")
+    return str(value)
+
+
 def decode_from_hdf5(value: Any) -> Any:
     """Decode a value loaded from an HDF5 file, reversing encode_for_hdf5."""
     if isinstance(value, bytes):  # HDF5 may store strings as bytes
@@ -697,7 +706,9 @@ def decode_from_hdf5(value: Any) -> Any:
             return value.item()
         if value.dtype.kind in {"S", "O", "U"}:
             try:
-                return value.astype(str).tolist()
+                # Strings are stored as UTF-8 bytes; astype(str) only
+                # decodes ASCII
+                return _decode_strings(value.tolist())
             except Exception:
                 # fallback: leave as ndarray
                 return value
